@@ -7,7 +7,7 @@ Stages (BUILDER_CONTRACT):
      coq/Gen/Builtins.v (deep embedding `cexp` of every row).  Entries that used to translate and
      no longer do are broken ties (tools/builtins_translated.json).
   2. proof stage: coq/Props/Properties_C04.v (fint_meets_spec, genc_meets_spec,
-     cfold_declines_or_meets_spec, cfold_meets_spec, three_agree, interp_c_agree, sameop_agree,
+     cfold_declines_or_meets_spec, cfold_never_faults, cfold_meets_spec, three_agree, interp_c_agree, sameop_agree,
      coverage_complete, specified_present) over the regenerated tables.  Searcher: the extracted
      model (coq/Builtins/driver.ml) evaluates every row against `spec` over the boundary product,
      and each disagreement is confirmed on the real system.
@@ -62,7 +62,7 @@ MANIFEST = {
 
 COQ_GEN = os.path.join(C.COQ, "Gen", "Builtins.v")
 PROOF_TARGETS = ["Builtins/ProofsFint.vo", "Builtins/ProofsGenc.vo", "Builtins/ProofsCfold.vo",
-                 "Builtins/ProofsCover.vo", "Builtins/Extract.vo"]
+                 "Builtins/ProofsCover.vo", "Builtins/ProofsFault.vo", "Builtins/Extract.vo"]
 PROPS = "Props/Properties_C04.v"
 
 M63 = 1 << 63
@@ -519,6 +519,61 @@ def run_real(jobs, routes=("interp", "fold", "c"), exe=None):
     return jobs
 
 
+# ------------------------------------------------------------------ compile-time fault probe
+
+MAY_FAULT = ["SIntMod", "SIntQuo", "SIntRem", "SIntPlusMod", "SIntMinusMod", "SIntTimesMod", "SIntTimesModInv"]
+
+
+def fault_cases():
+    """(builtin, expression, operands): constant operands OUTSIDE the domain (zero divisor, LONG_MIN with -1)."""
+    mn = operand_expr(S, -M63)
+    out = []
+    for n in ("SIntMod", "SIntQuo", "SIntRem"):
+        out.append((n, "%s(K(5), K(0))" % n, [5, 0]))
+        out.append((n, "%s(%s, K(-1))" % (n, mn), [-M63, -1]))
+    for n, a, b in (("SIntPlusMod", -M63, 0), ("SIntMinusMod", -M63, 0), ("SIntTimesMod", -M63, 1)):
+        out.append((n, "%s(K(3), K(4), K(0))" % n, [3, 4, 0]))
+        out.append((n, "%s(%s, K(%d), K(-1))" % (n, mn, b), [a, b, -1]))
+    out.append(("SIntTimesModInv", "SIntTimesModInv(K(3), K(4), K(0), SIntToDFlo(K(1)))", [3, 4, 0, 1]))
+    out.append(("SIntTimesModInv", "SIntTimesModInv(%s, K(1), K(-1), SIntToDFlo(K(-1)))" % mn, [-M63, 1, -1, -1]))
+    return out
+
+
+def fault_probe(rep, state):
+    """A call outside the domain in code that is never executed: compiling (with the folder on) and
+    running the program must still work on every route."""
+    exe = C.build_compiler()
+    rt = runtime_lib()
+    sig = {r["name"]: r for r in _translation()["sig"]}
+    top = C.scratch("c04fault")
+    cases = fault_cases()
+
+    def one(i):
+        name, e, ops = cases[i]
+        body = ["f(b: Boolean): () == { if b then %s }" % result_stmt("t0", S, e)[:-1], "f(false);",
+                result_stmt("t9", S, "K(1)")]
+        names = used_builtins(body, sig)
+        src = HEADER % "\n".join(aldor_sig(n, sig) for n in names) + "\n".join(body) + "\n"
+        res, _ = run_program(exe, os.path.join(top, "f%d" % i), "p", src, name, ("interp", "fold", "c"), rt)
+        return i, res
+    n = 0
+    with concurrent.futures.ThreadPoolExecutor(max(2, C.NCPU)) as ex:
+        for i, res in ex.map(one, range(len(cases))):
+            name, e, ops = cases[i]
+            for r, vals in res.items():
+                n += 1
+                if vals.get("t9") != 1 or "error" in vals or vals.get("timeout"):
+                    rep.violation(
+                        "a program containing %s in a branch that is never executed cannot be compiled/run on route %s: %s" % (
+                            e, r, (vals.get("error") or str(vals))[:200]),
+                        {"builtin": name, "operands": ops, "route": r, "flags": ROUTES.get(r) or ["-Q0", "C executable"],
+                         "expression": e, "dead_code": True,
+                         "program": "f(b: Boolean): () == { if b then pr(\"t0\", %s) }  f(false);  pr(\"t9\", K(1));" % e,
+                         "result": vals},
+                        key="cfoldfault:%s" % name if r == "fold" else "%s:%s" % (route_of_real(r), name))
+    return n
+
+
 # ------------------------------------------------------------------ ctype probe
 
 def ctype_probe(model, rep):
@@ -774,6 +829,8 @@ def run(rep, tier):
         if other:
             jobs += [j for j in float_jobs(C.rng("c04-search-f"), 60) + bint_jobs(C.rng("c04-search-b"), 60)
                      if j["name"] in other]
+        if any(f in MAY_FAULT for f in failed):
+            state["fault_probe_done"] = fault_probe(rep, state)
         if not jobs:
             return
         run_real(jobs)
@@ -813,6 +870,7 @@ def run(rep, tier):
         for (name, ops, route, want), p in state.get("model_bad_on_run_points", [])[:5]:
             rep.violation("model of %s row %s predicts %s on %s, the definition is %s" % (route, name, p, ops, want),
                           {"builtin": name, "operands": ops, "route": route}, no_input=True)
+    n_fault = state.get("fault_probe_done") or fault_probe(rep, state)
     wall_real = time.time() - t0
     if state["timeouts"]:
         rep.notes.append("the compiler did not terminate within %d s on the generated program(s) for %s (statements were then "
@@ -833,7 +891,7 @@ def run(rep, tier):
             "builtins_run": len({j["name"] for j in jobs}), "expressions": n_points, "per_route_values": per_route,
             "cap_per_builtin": cap, "boundary_sizes": {t: len(boundary(t)) for t in (B, Ch, By, H, S)},
             "fold_confirmed_tuples": fconf, "fold_expected_tuples": ftot,
-            "model_sweep_evaluations": n_sweep, "ctype_points": n_ct},
+            "model_sweep_evaluations": n_sweep, "ctype_points": n_ct, "dead_code_fault_probe_runs": n_fault},
         rows={r: {"rows": c[0], "translated": c[1]} for r, c in counts.items()},
         classes={"specified": len(SPEC), "oracle_only_run": sorted(ORACLE_ONLY), "excluded": excluded_names()},
         known_bad_rows=kb,
